@@ -360,6 +360,18 @@ def check_one(ctx, m, tag, data, eof, segs, x, cache, opts=(True, False)):
     if eof == 'reset':
         check_reset(ctx, case, m, tag, data, x, opts)
         return
+    if 'bighead-framed' in m.tags:
+        # exact payload or error - never a success with anything else, never a wait for a close
+        # the header block does not ask for
+        want = m.payload if m.coding is None else H.one_shot_decode(m.coding, m.payload)
+        if x.outcome == 'ok' and x.body != want:
+            ctx.fail('wrong-body', 'read_response', case, 'a %d byte header block with its framing / coding field after the 32 KiB mark: '
+                     'reported as a success with a body of %d bytes (%r..), the complete header block delimits %r'
+                     % (len(m.head), len(x.body), x.body[:30], want[:30]))
+        elif x.outcome == 'stalled':
+            ctx.fail('complete-message-blocks', 'read_response', case, 'a complete message with a %d byte header block: the reader waits '
+                     'for more (its framing field lies after the 32 KiB mark)' % len(m.head))
+        return
     if not m.wf:
         return
     ref = H.ref_decode(m.message, m.method)
@@ -958,6 +970,35 @@ def fixed_sequences():
     return out
 
 
+def bighead_items():
+    """Header sections of 33 KiB .. 200 KiB whose framing / coding / connection field comes AFTER
+    the 32 KiB mark.  The reader may refuse such a head; what it must not do is succeed with
+    anything but the payload the complete header block delimits."""
+    import gzip
+    items = []
+    gz = gzip.compress(b'compressed payload')
+    for size in (33000, 70000, 200000):
+        filler = b''
+        i = 0
+        while len(filler) < size:
+            filler += b'X-Filler-%d: %s\r\n' % (i, b'a' * 900)
+            i += 1
+        for late, framed, payload, framing, coding in (
+                (b'Transfer-Encoding: chunked\r\n', b'5\r\nhello\r\n0\r\n\r\n', b'hello', 'chunked', None),
+                (b'Content-Length: 3\r\n', b'abc', b'abc', 'length', None),
+                (b'Content-Length: %d\r\nContent-Encoding: gzip\r\n' % len(gz), gz, gz, 'length', 'gzip'),
+                (b'Content-Length: 3\r\nConnection: close\r\n', b'abc', b'abc', 'length', None)):
+            m = _mk(b'HTTP/1.1 200 OK\r\n' + filler + late + b'\r\n', framed, payload, framing=framing, wf=False)
+            m.coding = coding
+            m.tags = ['fixed', 'bighead-framed']
+            msg = m.message
+            h = len(m.head)
+            for eof in (True, False):
+                items.append((m, 'complete', msg, eof, [[], [32768, h]]))
+            items.append((m, 'surplus', msg + b'XY', True, [[h]]))
+    return items
+
+
 def coded_truncation_items():
     """Content-coded, close-delimited responses (HTTP/1.0 style and HTTP/1.1 `Connection: close`):
     complete, and cut by the peer at EVERY position inside the coded body.  The framing cannot
@@ -1105,6 +1146,7 @@ def _run(ctx, pid='C08'):
                     items.append((m, 'truncated', msg[:c], True, [[], list(range(1, c))], opts))
     stream_decode(ctx, items, thorough, cache)
     stream_decode(ctx, coded_truncation_items(), thorough, cache)
+    stream_decode(ctx, bighead_items(), thorough, cache)
     ctx.note('t_fixed', round(time.time() - t0, 1))
     # generated messages
     batch = []
